@@ -13,14 +13,17 @@ C05 — PHP's rules for `throw` / `try` / `catch` / `finally`, written from the 
   `finally` block itself returns, throws or jumps, which **replaces** what was pending;
 * `throw $e` in a `catch` rethrows the same object;
 * a failure of the host (a Go panic inside the interpreter) inside a `try` is a class-less throwable that only
-  `Throwable` / `Exception` / `Error` clauses catch; outside any `try` it ends the process.
+  `Throwable` / `Exception` / `Error` clauses catch; outside any `try` it ends the process;
+* a function call runs the function's body in a **new activation**: its own parameter `$n`, no catch variable; what
+  the caller has pending (a return value held over a `finally` block, a caught object, a loop) belongs to the caller's
+  activation and is out of the callee's reach, also when the callee is the same function.
 
 The subtype test is a parameter (`Rules.sub`): any decision procedure for the declared hierarchy
 (`Spec.Hier.IsA`, C08) will do. Handlers are a list of (types, continuation); selection is `pick`.
 -/
 namespace Spec.Exc
 open Model.Hier (Name Cls Graph getClass throwableName exceptionName errorName)
-open Model.Exc (Thrown Out Ev Res Stmt Block Catches)
+open Model.Exc (Thrown Out Ev Res Stmt Block Catches Act Prog tag)
 
 structure Rules where
   sub : Thrown → Name → Bool        -- is the thrown value an instance of the named type
@@ -42,6 +45,14 @@ def raise : Out → Out
   | o => o
 
 abbrev Handler := Nat → Thrown → List Ev → Res
+
+/-- what the caller sees of a call that came back with `r`: the value of a `return` (or none), printed; anything
+else the callee let out is now pending in the caller -/
+def returned (r : Res) : Res :=
+  match r.1 with
+  | .ret v => (.normal, r.2 ++ [.result (some v)])
+  | .normal => (.normal, r.2 ++ [.result none])
+  | _ => r
 
 /-- first clause, in source order, one of whose types the thrown value is an instance of; `k` counts clauses -/
 def pick (sub : Thrown → Name → Bool) (t : Thrown) : List (List Name × Handler) → Nat → Option (Nat × Handler)
@@ -72,37 +83,42 @@ def resume (pending : Out) (f : Res) : Res :=
   (if raise f.1 = .normal then pending else raise f.1, f.2)
 
 mutual
-def exec (R : Rules) (cur : Option Thrown) : Stmt → List Ev → Res
-  | .echo m, tr => (.normal, tr ++ [.echo m])
-  | .throw cls site, tr => (.thr (R.newObj cls site), tr)
+def exec (R : Rules) (cur : Option Thrown) (A : Act) : Stmt → List Ev → Res
+  | .echo m, tr => (.normal, tr ++ [.echo A.lvl m])
+  | .throw cls site, tr => (.thr (R.newObj cls (tag A.lvl site)), tr)
   | .rethrow, tr => (.thr (cur.getD .internal), tr)
   | .gopanic, tr => (.panic, tr)
-  | .ret v, tr => (.ret v, tr)
+  | .ret v, tr => (.ret (tag A.lvl v), tr)
   | .brk, tr => (.brk, tr)
   | .cont, tr => (.cont, tr)
-  | .loop k body, tr => iterate (fun t => execB R cur body t) k tr
-  | .call body, tr =>
-    let r := execB R none body tr
-    match r.1 with
-    | .ret v => (.normal, r.2 ++ [.result (some v)])
-    | .normal => (.normal, r.2 ++ [.result none])
-    | _ => r
+  | .loop k body, tr => iterate (fun t => execB R cur A body t) k tr
+  | .call body, tr => returned (execB R none A body tr)
+  | .callf k, tr => if A.lvl = 0 then (.normal, tr) else returned (A.env k tr)
   | .try_ i body cs hasFin fin, tr =>
-    let pending := afterCatch R.sub (handlers R i cs) (execB R cur body (tr ++ [.enterTry i]))
-    if hasFin then resume pending.1 (execB R cur fin (pending.2 ++ [.enterFinally i]))
+    let pending := afterCatch R.sub (handlers R A i cs) (execB R cur A body (tr ++ [.enterTry A.lvl i]))
+    if hasFin then resume pending.1 (execB R cur A fin (pending.2 ++ [.enterFinally A.lvl i]))
     else pending
-def execB (R : Rules) (cur : Option Thrown) : Block → List Ev → Res
+def execB (R : Rules) (cur : Option Thrown) (A : Act) : Block → List Ev → Res
   | .nil, tr => (.normal, tr)
   | .cons s rest, tr =>
-    let r := exec R cur s tr
-    if r.1 = .normal then execB R cur rest r.2 else r
-def handlers (R : Rules) (i : Nat) : Catches → List (List Name × Handler)
+    let r := exec R cur A s tr
+    if r.1 = .normal then execB R cur A rest r.2 else r
+def handlers (R : Rules) (A : Act) (i : Nat) : Catches → List (List Name × Handler)
   | .nil => []
-  | .cons tys body rest => (tys, fun k t tr => execB R (some t) body (tr ++ [.caught i k t])) :: handlers R i rest
+  | .cons tys body rest =>
+    (tys, fun k t tr => execB R (some t) A body (tr ++ [.caught A.lvl i k t])) :: handlers R A i rest
 end
 
-def run (R : Rules) (p : Block) : Model.Exc.Final × List Ev :=
-  let r := execB R none p []
+/-- a call of named function `k` from an activation with `$n = n`: a new activation with `$n = n - 1` -/
+def envAt (R : Rules) (fns : List Block) : Nat → Nat → List Ev → Res
+  | 0, _, tr => (.normal, tr)
+  | n+1, k, tr =>
+    match fns[k]? with
+    | some b => execB R none ⟨n, envAt R fns n⟩ b tr
+    | none => (.thr .internal, tr)
+
+def run (R : Rules) (p : Prog) : Model.Exc.Final × List Ev :=
+  let r := execB R none ⟨p.depth, envAt R p.fns p.depth⟩ p.main []
   (Model.Exc.final r.1, r.2)
 
 /-- the catch variable holds the thrown object itself -/
@@ -187,17 +203,21 @@ def goodC (i : Nat) : Catches → Bool
   | .cons _ b r => goodB i b && goodC i r
 end
 
-def isTryEv (i : Nat) : Ev → Bool
-  | .enterTry j => j == i
-  | .enterFinally j => j == i
+def mentionsP (i : Nat) (p : Prog) : Bool := mentionsB i p.main || p.fns.any (mentionsB i)
+def goodP (i : Nat) (p : Prog) : Bool := goodB i p.main && p.fns.all (goodB i)
+
+/-- the events of try `i` executed by an activation with `$n = L` -/
+def isTryEv (L i : Nat) : Ev → Bool
+  | .enterTry a j => a == L && j == i
+  | .enterFinally a j => a == L && j == i
   | _ => false
 
-/-- the events of try `i` in a trace, in order -/
-def proj (i : Nat) (tr : List Ev) : List Ev := tr.filter (isTryEv i)
+/-- the events of try `i` at level `L` in a trace, in order -/
+def proj (L i : Nat) (tr : List Ev) : List Ev := tr.filter (isTryEv L i)
 
-/-- `enterTry i, enterFinally i` repeated: every entry into try `i` is followed by exactly one entry into its
-finally block before the next entry (or the end) -/
-def Alternates (i : Nat) (l : List Ev) : Prop :=
-  ∃ n, l = (List.replicate n [Ev.enterTry i, Ev.enterFinally i]).flatten
+/-- `enterTry L i, enterFinally L i` repeated: every entry into try `i` by an activation of level `L` is followed by
+exactly one entry into its finally block by that activation before the next such entry (or the end) -/
+def Alternates (L i : Nat) (l : List Ev) : Prop :=
+  ∃ n, l = (List.replicate n [Ev.enterTry L i, Ev.enterFinally L i]).flatten
 
 end Spec.Exc
